@@ -571,33 +571,39 @@ def _propagate(ctx, f, res: Result, selfp: T, tpar: T, mode: str):
            f"{stale_reads[0].where} reads poses after they were already "
            f"replaced — drift is not propagated (later poses become p.t)",
            key="C08.5:transform:propagate:rel-from-original")
-    # D_i = rel(p_i, p_j).t with (i, j) consecutive indices
-    ok2 = False
+    # D_i = rel(p_i, p_{i+1}).t over all consecutive positions
+    Mattr = tm.attr(selfp, M)
+    ok2 = None
+    why2 = "relative_se3 operands not recognised as positions of the " \
+           "original pose list"
     for e in rels:
         b = e.data.get("bound") or {}
         p1, p2 = b.get("p1"), b.get("p2")
         if p1 is None or p2 is None:
             continue
-        i1 = p1.args[1] if p1.op == "sub" else None
-        i2 = p2.args[1] if p2.op == "sub" else None
-        if i1 is None or i2 is None or i1.op != "elem" or i2.op != "elem":
+        s1, s2 = _position(p1, Mattr), _position(p2, Mattr)
+        if s1 is None or s2 is None:
             continue
-        a, b_ = i1.args[0], i2.args[0]
-        # zip(ids, ids[1:])
-        cons = b_.op == "sub" and b_.args[0] is a and \
-            b_.args[1] == T("slice", const(1), tm.NONE, tm.NONE) and \
-            i1.args[1] == i2.args[1]
-        # result right-multiplied by t
         users = [x for x in res.events if x.kind == "call" and
                  _dot_operands(x.data["result"]) ==
                  (e.data["result"], tpar)]
-        if cons and users:
+        (l1, o1, c1), (l2, o2, c2) = s1, s2
+        if l1 != l2 or c1 is None or c2 is None:
+            continue
+        if (o1, o2, min(c1, c2)) == (0, 1, -1) and users:
             ok2 = True
+        else:
+            ok2 = False
+            why2 = (f"relative motion at {e.where} is rel(p[k+{o1}], "
+                    f"p[k+{o2}]) for k < n{min(c1, c2):+d}"
+                    f"{'' if users else ', not right-multiplied by t'}")
+        break
+    ctx.require(ok2 is not None, f"transform[propagate]: {why2} "
+                f"(unknown idiom)")
     ctx.ob("C08.5", f, ok2,
            "transform[propagate]: D_i = relative_se3(p_i, p_{i+1}).dot(t) "
-           "over consecutive indices" if ok2 else
-           "transform[propagate]: relative motions are not "
-           "relative_se3(p_i, p_{i+1}).t over consecutive index pairs",
+           "over all n-1 consecutive index pairs" if ok2 else
+           f"transform[propagate]: {why2}",
            key="C08.5:transform:propagate:rel-shape")
     # first pose kept
     setm = [e for e in res.of_kind("setattr")
@@ -612,8 +618,9 @@ def _propagate(ctx, f, res: Result, selfp: T, tpar: T, mode: str):
            "transform[propagate]: the first pose is kept" if ok3 else
            "transform[propagate]: new pose list does not start with the "
            "original first pose", key="C08.5:transform:propagate:first")
-    # accumulation new[j] . D_i with j == i (zip(ids[:-1], ids))
-    ok4 = False
+    # accumulation new[k+1] = new[k] . D_k, k = 0..n-2 in order
+    ok4 = None
+    why4 = "accumulation new[k+1] = new[k].D_k not recognised"
     for e in res.of_kind("call"):
         if not e.data.get("mutates_recv") or not e.data["name"].endswith(
                 "append") or not e.data["args"]:
@@ -622,20 +629,140 @@ def _propagate(ctx, f, res: Result, selfp: T, tpar: T, mode: str):
         if ops is None:
             continue
         l, r_ = ops
-        if l.op == "sub" and r_.op == "sub" and l.args[1].op == "elem" and \
-                r_.args[1].op == "elem" and \
-                l.args[1].args[1] == r_.args[1].args[1]:
-            ja, ia = l.args[1].args[0], r_.args[1].args[0]
-            # i over ids[:-1], j over ids (same positions)
-            ok4 = ia.op == "sub" and ia.args[0] is ja and ia.args[1] == \
-                T("slice", tm.NONE, const(-1), tm.NONE) or ia is ja
-            if ok4:
-                break
+        if l.op != "sub":
+            continue
+        rp = _seq_position(r_)
+        if rp is None or not any(x is y.data["result"] for y in rels
+                                 for x in rp[3].walk()):
+            continue
+        rl, ro, rc, _ = rp
+        if tm.is_const(l.args[1], -1):
+            lp = (rl, 0, rc)
+        elif tm.is_const(l.args[1]):
+            ok4 = False
+            why4 = (f"accumulation at {e.where} always starts from the fixed "
+                    f"pose new[{l.args[1].args[1]}]")
+            break
+        else:
+            q = _index_position(l.args[1])
+            lp = q
+        if lp is None or lp[0] != rl or rc is None:
+            continue
+        # the list of relative motions has n-1 entries; a direct loop over
+        # it (count marker 0 relative to itself) or an index range of n-1
+        whole = rc == 0 and rp[3].op in ("comp", "loopout", "list") or \
+            rc == -1
+        if lp[1] == 0 and ro == 0 and whole:
+            ok4 = True
+        else:
+            ok4 = False
+            why4 = (f"accumulation at {e.where} is new[k+{lp[1]}].D[k+{ro}]"
+                    f"{'' if whole else ' over a truncated index range'}")
+        break
+    ctx.require(ok4 is not None, f"transform[propagate]: {why4} "
+                f"(unknown idiom)")
     ctx.ob("C08.5", f, ok4,
            "transform[propagate]: new pose k+1 = new pose k . D_k "
            "(accumulated from the left)" if ok4 else
-           "transform[propagate]: accumulation new[k+1] = new[k].D_k not "
-           "recognised", key="C08.5:transform:propagate:accumulate")
+           f"transform[propagate]: {why4}",
+           key="C08.5:transform:propagate:accumulate")
+
+
+def _count(x: T):
+    """length of an index source relative to n = number of poses: 0 for n,
+    -1 for n-1; None when unknown."""
+    if x.op == "call" and tm.callee_name(x) == "builtins.len":
+        return 0
+    if x.op == "binop" and x.args[0] == "Sub" and \
+            tm.is_const(x.args[2]) and isinstance(x.args[2].args[1], int):
+        c = _count(x.args[1])
+        return None if c is None else c - x.args[2].args[1]
+    return None
+
+
+def _index_source(x: T):
+    """(offset, count) of an index sequence 0+offset, 1+offset, ...: range(N),
+    np.arange(0, N, 1) and their [1:] / [:-1] slices."""
+    if x.op == "sub" and x.args[1].op == "slice":
+        lo, hi, st = x.args[1].args
+        inner = _index_source(x.args[0])
+        if inner is None or st is not tm.NONE:
+            return None
+        o, c = inner
+        if c is None:
+            return None
+        if lo is not tm.NONE:
+            if not (tm.is_const(lo) and isinstance(lo.args[1], int)
+                    and lo.args[1] >= 0):
+                return None
+            o, c = o + lo.args[1], c - lo.args[1]
+        if hi is not tm.NONE:
+            if not (tm.is_const(hi) and isinstance(hi.args[1], int)
+                    and hi.args[1] < 0):
+                return None
+            c = c + hi.args[1]
+        return o, c
+    if x.op == "call" and tm.callee_name(x) in ("builtins.range",
+                                                "numpy.arange"):
+        pos = list(x.args[1])
+        if len(pos) == 1:
+            return 0, _count(pos[0])
+        if len(pos) in (2, 3) and tm.is_const(pos[0], 0) and \
+                (len(pos) == 2 or tm.is_const(pos[2], 1)):
+            return 0, _count(pos[1])
+    return None
+
+
+def _index_position(i: T):
+    """(loop id, offset, count) of an index term k+offset."""
+    off = 0
+    while i.op == "binop" and i.args[0] == "Add" and \
+            tm.is_const(i.args[2]) and isinstance(i.args[2].args[1], int):
+        off += i.args[2].args[1]
+        i = i.args[1]
+    if i.op != "elem":
+        return None
+    src = _index_source(i.args[0])
+    if src is None:
+        return None
+    return i.args[1], off + src[0], src[1]
+
+
+def _seq_position(p: T):
+    """p as element k+offset of some sequence: (loop id, offset, count
+    relative to the sequence length, sequence)."""
+    if p.op == "sub" and p.args[1].op != "slice":
+        q = _index_position(p.args[1])
+        if q is None:
+            return None
+        return q[0], q[1], q[2], p.args[0]
+    if p.op == "elem":
+        seq, off, cnt = p.args[0], 0, 0
+        while seq.op == "sub" and seq.args[1].op == "slice":
+            lo, hi, st = seq.args[1].args
+            if st is not tm.NONE:
+                return None
+            if lo is not tm.NONE:
+                if not (tm.is_const(lo) and isinstance(lo.args[1], int)
+                        and lo.args[1] >= 0):
+                    return None
+                off, cnt = off + lo.args[1], cnt - lo.args[1]
+            if hi is not tm.NONE:
+                if not (tm.is_const(hi) and isinstance(hi.args[1], int)
+                        and hi.args[1] < 0):
+                    return None
+                cnt += hi.args[1]
+            seq = seq.args[0]
+        return p.args[1], off, cnt, seq
+    return None
+
+
+def _position(p: T, Mattr: T):
+    """a pose operand as position k+offset of the *original* pose list."""
+    q = _seq_position(p)
+    if q is None or q[3] is not Mattr:
+        return None
+    return q[0], q[1], q[2]
 
 
 def _scale(ctx, prog):
@@ -783,6 +910,35 @@ VARIANTS = [
          find="            self._positions_xyz = np.array([p[:3, 3] for p in self._poses_se3])",
          replace="            self._positions_xyz = np.array([p[3, :3] for p in self._poses_se3])",
          expect="fire", rule="C08.4"),
+    dict(name="propagate-rel-same-index", file="evo/core/trajectory.py",
+         find="for i, j in zip(ids, ids[1:])",
+         replace="for i, j in zip(ids, ids)", expect="fire", rule="C08.5"),
+    dict(name="propagate-truncated", file="evo/core/trajectory.py",
+         find="for i, j in zip(ids[:-1], ids):",
+         replace="for i, j in zip(ids[:-2], ids):", expect="fire",
+         rule="C08.5"),
+    dict(name="propagate-from-first", file="evo/core/trajectory.py",
+         find="self._poses_se3.append(self._poses_se3[j].dot(rel_poses[i]))",
+         replace="self._poses_se3.append(self._poses_se3[0].dot(rel_poses[i]))",
+         expect="fire", rule="C08.5"),
+    dict(name="propagate-last-idiom", file="evo/core/trajectory.py",
+         find="            for i, j in zip(ids[:-1], ids):\n"
+              "                self._poses_se3.append(self._poses_se3[j].dot(rel_poses[i]))",
+         replace="            for rel in rel_poses:\n"
+                 "                self._poses_se3.append(self._poses_se3[-1].dot(rel))",
+         expect="silent"),
+    dict(name="propagate-range-idiom", file="evo/core/trajectory.py",
+         find="                lie.relative_se3(self.poses_se3[i], self.poses_se3[j]).dot(t)\n"
+              "                for i, j in zip(ids, ids[1:])",
+         replace="                lie.relative_se3(self.poses_se3[i], self.poses_se3[i + 1]).dot(t)\n"
+                 "                for i in range(self.num_poses - 1)",
+         expect="silent"),
+    dict(name="propagate-range-short", file="evo/core/trajectory.py",
+         find="                lie.relative_se3(self.poses_se3[i], self.poses_se3[j]).dot(t)\n"
+              "                for i, j in zip(ids, ids[1:])",
+         replace="                lie.relative_se3(self.poses_se3[i], self.poses_se3[i + 1]).dot(t)\n"
+                 "                for i in range(self.num_poses - 2)",
+         expect="fire", rule="C08.5"),
     dict(name="cached-path-length", file="evo/core/trajectory.py",
          find="        return float(geometry.arc_len(self.positions_xyz))",
          replace="        if not hasattr(self, \"_path_length\"):\n"
